@@ -32,7 +32,7 @@ def shards(tier, seed):
     Ls = range(1, 6) if tier == "quick" else list(range(1, 9)) + [12, 17, 30]
     for A in As:
         for L in Ls:
-            for kind in ("tensor", "trailing", "tuple"):
+            for kind in ("tensor", "trailing", "tuple", "tuple1", "inplace_arg"):
                 out.append(dict(name="A%d/L%d/%s" % (A, L, kind), A=A, L=L, kind=kind, weight=A * L * L * L))
     out.append(dict(name="history", history=True, A=4, L=4, kind="tensor", weight=2000))
     out.append(dict(name="long", long=True, A=4, L=300, kind="tensor", weight=3000))
@@ -52,6 +52,12 @@ class Model(torch.nn.Module):
         for k, a in enumerate(args):
             y = y + 100000.0 * (k + 1) * a.double().reshape(a.shape[0], -1).sum(1, keepdim=True)
         if self.kind == "tensor":
+            return y[:, :3]
+        if self.kind == "tuple1":
+            return (y[:, :3],)                                   # a tuple holding exactly one tensor
+        if self.kind == "inplace_arg":
+            for a in args:
+                a.clamp_(min=-1e9)                               # the model touches its extra arguments in place (a no-op on the values)
             return y[:, :3]
         if self.kind == "trailing":
             return y.reshape(-1, 2, 2)
@@ -153,6 +159,7 @@ def run_one(rec, A, L, kind, tier, seed):
                         o = model(x, *a)
                         return [o] if isinstance(o, torch.Tensor) else list(o)
                     y0_ref = [torch.cat([f(X[n:n + 1], n)[k] for n in range(N)]) for k in range(2 if kind == "tuple" else 1)]
+                    argsc = None if args is None else [a_.clone() for a_ in args]
                     yh_ref = []
                     for k in range(len(y0_ref)):
                         t = torch.zeros((N, A, Wn) + tuple(y0_ref[k].shape[1:]), dtype=torch.float64)
@@ -176,6 +183,14 @@ def run_one(rec, A, L, kind, tier, seed):
                         rec.violation("ism:raw_raises:" + tag, case, observed=val)
                         continue
                     y0, yh = val
+                    if kind in ("tuple", "tuple1") and (isinstance(y0, torch.Tensor) or isinstance(yh, torch.Tensor) or len(y0) != len(yh)):
+                        rec.violation("ism:output_structure:" + tag, case, expected="y0 and y_hat: one entry per model output",
+                                      observed="%s / %s" % (type(y0).__name__, type(yh).__name__))
+                        continue
+                    if args is not None and any(not torch.equal(a_, c_) for a_, c_ in zip(args, argsc)):
+                        rec.violation("ism:args_modified", case)
+                        for a_, c_ in zip(args, argsc):
+                            a_.copy_(c_)
                     y0 = [y0] if isinstance(y0, torch.Tensor) else list(y0)
                     yh = [yh] if isinstance(yh, torch.Tensor) else list(yh)
                     bad = False
@@ -201,7 +216,7 @@ def run_one(rec, A, L, kind, tier, seed):
                         rec.violation("ism:input_modified", case)
                         X = Xc.clone()
                 # raw outputs are the model's outputs for every mutant whatever `target` says (the target only selects what is attributed)
-                if kind != "tuple":
+                if kind not in ("tuple", "tuple1"):
                     for target in (0, -1, slice(0, 2)):
                         st, val = call(saturation_mutagenesis, model, X, args=args, start=s, end=e, batch_size=7, raw_outputs=True, target=target, device="cpu")
                         rec.case(1, nontriv)
@@ -212,7 +227,7 @@ def run_one(rec, A, L, kind, tier, seed):
                         elif tuple(val[1].shape) != tuple(yh_ref[0].shape) or not torch.equal(val[1].double(), yh_ref[0]) or not torch.equal(val[0].double(), y0_ref[0]):
                             rec.violation("ism:raw_outputs_depend_on_target", c3, expected=list(yh_ref[0].shape), observed=list(val[1].shape))
                 # attribution output (single-tensor models only), boundary batch size only
-                if kind == "tuple":
+                if kind in ("tuple", "tuple1"):
                     continue
                 T = y0_ref[0].shape[1]
                 for target in (None, 0, T - 1, slice(0, 2), -1, -T, slice(-2, None), slice(1, None)):
